@@ -60,6 +60,8 @@ type ChunkResult struct {
 	GoMaxProcs  int               `json:"gomaxprocs"`
 	WallS       float64           `json:"wall_s"`
 	Extra       map[string]string `json:"extra,omitempty"`
+	PerProcess  []string          `json:"per_process,omitempty"` // values every worker process must agree on, element-wise
+	PerProcessQ []string          `json:"per_process_what,omitempty"`
 }
 
 // RunCtx is what a scenario sees for one run.
@@ -122,6 +124,7 @@ func main() {
 	samples := flag.Int("samples", 2, "number of sample scenarios to include")
 	thin := flag.Int("thin", 1, "keep only run signatures with sig % thin == 0")
 	optFlag := flag.String("opt", "", "scenario options k=v,k=v")
+	chunkFlag := flag.Int("chunk", -1, "first run index of the chunk this process stands for (replay: the chunk the run came from); default -from")
 	warm := flag.Int("warm", 0, "replay only: first execute this many preceding runs of the batch (a run that was not the first of its process met warm package state)")
 	flag.Parse()
 
@@ -159,6 +162,11 @@ func main() {
 				hotSite[s.ID] = s.Hot
 			}
 		}
+	}
+	batchSeed = *seed
+	chunkFrom = *from
+	if *chunkFlag >= 0 {
+		chunkFrom = *chunkFlag
 	}
 	debug.SetGCPercent(-1) // garbage collection (and with it sync.Pool flushing) happens when the simulator says so
 	simhook.YHook = yHook
